@@ -59,7 +59,8 @@ fn model_apply(kind: &str, s: &mut Vec<R>, op: &Op) -> bool {
                 i
             } else {
                 // new rules rank above the other user rules; `.m.rule.master` stays first among the overrides
-                let dflt = if kind == "override" { 1 } else { 0 };
+                // ("second after the master rule for overrides": when the master rule is there)
+                let dflt = if kind == "override" && base.first().is_some_and(|r| r.id == ".m.rule.master") { 1 } else { 0 };
                 dflt.min(base.len())
             };
             let mut out = base;
